@@ -216,8 +216,8 @@ def hier_ok(cs: List[bool], xs: List[int], ys: List[int], g: int, dyn: int) -> b
 
 def conditions(tier, seed):
     th = tier == "thorough"
-    n = 400 if th else 100
-    to = 120 if th else 30
+    n = 400 if th else 60
+    to = 120 if th else 25
     out = []
     for i in range(n):
         pid = seed * 100000 + i
